@@ -34,7 +34,8 @@ theorem mapElts_render (env : Env) (mode : Mode) (lz : Option Bool) (fk fv : Mic
     obtain ⟨k, v⟩ := kv
     have hx := h (k, v) (by simp)
     have hxs := ih (fun y hy => h y (by simp [hy]))
-    simp only [renderE, mapElts, accepts_elt, if_true, hx.1, hx.2, hxs]
+    simp only [renderE, mapElts, List.isEmpty_nil, Bool.not_true, Bool.false_eq_true, if_false, accepts_elt, if_true,
+      hx.1, hx.2, hxs]
 
 /-! ### little-endian bytes -/
 
@@ -52,16 +53,38 @@ theorem leToNat_natToLE (n v : Nat) : leToNat (natToLE n v) = v % 256 ^ n := by
 
 /-! ### pairs -/
 
-theorem pairOfMich_two (n : Bool) (f g : Mich → Except Err Val) (a b : Mich) (x y : Val)
+/-- two arguments (an unannotated `Pair` node or a sequence): whatever the class of the right component -/
+theorem pairOfMich_two (n rp : Bool) (f g : Mich → Except Err Val) (a b : Mich) (x y : Val)
     (hf : f a = .ok x) (hg : g b = .ok y) :
-    pairOfMich n f g (pairOf [a, b]) = .ok (.pair n x y) ∧ pairOfMich n f g (.seq [a, b]) = .ok (.pair n x y) := by
+    pairOfMich n rp f g (pairOf [a, b]) = .ok (.pair n x y) ∧ pairOfMich n rp f g (.seq [a, b]) = .ok (.pair n x y) := by
   simp [pairOfMich, pairOf, hf, hg]
 
+/-- three or more arguments: accepted when the right component is a pair class -/
 theorem pairOfMich_many (n : Bool) (f g : Mich → Except Err Val) (a b c : Mich) (rest : List Mich) (x y : Val)
     (hf : f a = .ok x) (hg : g (.seq (b :: c :: rest)) = .ok y) :
-    pairOfMich n f g (pairOf (a :: b :: c :: rest)) = .ok (.pair n x y) ∧
-      pairOfMich n f g (.seq (a :: b :: c :: rest)) = .ok (.pair n x y) := by
+    pairOfMich n true f g (pairOf (a :: b :: c :: rest)) = .ok (.pair n x y) ∧
+      pairOfMich n true f g (.seq (a :: b :: c :: rest)) = .ok (.pair n x y) := by
   simp [pairOfMich, pairOf, hf, hg]
+
+/-- … and rejected otherwise (1138dca: before, a list / set / map on the right took the rest as its elements) -/
+theorem pairOfMich_many_nonpair (n : Bool) (f g : Mich → Except Err Val) (a b c : Mich) (rest : List Mich) :
+    pairOfMich n false f g (pairOf (a :: b :: c :: rest)) = .error .shape ∧
+      pairOfMich n false f g (.seq (a :: b :: c :: rest)) = .error .shape := by
+  simp [pairOfMich, pairOf]
+
+/-- an annotated `Pair` node is not a value (3f5c1d7) -/
+theorem pairOfMich_annotated (n rp : Bool) (f g : Mich → Except Err Val) (args : List Mich) (an : String) (ans : List String) :
+    pairOfMich n rp f g (.prim "Pair" args (an :: ans)) = .error .shape := by
+  simp [pairOfMich]
+
+/-- only a pair class has pair values: the n-ary forms the renderer produces (it splices the right component in only
+when that is a pair *value*) are always over a pair class on the right -/
+theorem isPair_of_hasTy_pair (env : Env) (τ : Ty) (n : Bool) (a b : Val) (h : hasTy env τ (.pair n a b) = true) :
+    τ.isPair = true := by
+  cases τ with
+  | pair l r an => rfl
+  | leaf l an => cases l <;> simp [hasTy] at h
+  | _ => simp [hasTy] at h
 
 
 /-! ### facts read off the regenerated tables (they fail to close when the source changes shape) -/
